@@ -1,6 +1,7 @@
 SPECIFICATION Spec
 INVARIANT EncodeCorrect
 INVARIANT DecodeCorrect
+INVARIANT BranchCover
 CONSTANTS
   CB = 8
   M = 4
@@ -10,6 +11,8 @@ CONSTANTS
   FixSticky = FALSE
   FixUnderflow = FALSE
   Scope = "mini"
-  ELoNeg = 22
-  EHi = 12
+  ELoAbs = 22
+  ELoNegative = TRUE
+  EHiAbs = 12
+  EHiNegative = FALSE
 CHECK_DEADLOCK FALSE
